@@ -47,7 +47,9 @@ META = {
         'thorough), closed by forking',
     ],
     'bounds': {
-        'quick': 'N<=2 notes (3 for performances); steps <= 6 for '
+        'quick': 'N<=2 notes with symbolic steps; performances additionally N=3 '
+                 'on six concrete step patterns with symbolic velocities, '
+                 'pitches; steps <= 6 for '
                  'melody/drums/chords/pianoroll; 4 steps per bar',
         'thorough': 'N<=3; steps <= 9; more parameter combinations',
     },
@@ -57,9 +59,21 @@ META = {
 
 NO_EVENT, NOTE_OFF = -2, -1
 
+# (start, end) step patterns for three notes: chained overlaps, nesting,
+# abutting, a long gap, simultaneous onsets
+_PATTERNS3 = [
+    [[0, 2], [1, 4], [3, 5]],
+    [[0, 5], [1, 2], [3, 4]],
+    [[0, 2], [2, 4], [4, 6]],
+    [[0, 1], [0, 3], [40, 41]],
+    [[0, 3], [1, 3], [3, 4]],
+    [[2, 3], [0, 6], [1, 5]],
+]
+
 
 def _qseq(c, N, smax, relative=True, spq=1, sps=100, ts=(4, 4), pitch=(58, 62),
-          unbounded=False, instruments=(0, 1), vel=(0, 127)):
+          unbounded=False, instruments=(0, 1), vel=(0, 127), steps=None,
+          no_overlap=True):
   """A quantized NoteSequence built directly on the message classes."""
   pb = c.pb
   ns = pb.NoteSequence()
@@ -73,9 +87,13 @@ def _qseq(c, N, smax, relative=True, spq=1, sps=100, ts=(4, 4), pitch=(58, 62),
   ns.time_signatures.add(numerator=ts[0], denominator=ts[1])
   notes = []
   for i in range(N):
-    qs = c.int('n%d_qs' % i, 0, None if unbounded else smax - 1)
-    qe = c.int('n%d_qe' % i, 1, None if unbounded else smax)
-    c.assume(qs < qe)
+    if steps is not None:
+      # concrete step pattern (velocities, pitches, instruments stay symbolic)
+      qs, qe = steps[i]
+    else:
+      qs = c.int('n%d_qs' % i, 0, None if unbounded else smax - 1)
+      qe = c.int('n%d_qe' % i, 1, None if unbounded else smax)
+      c.assume(qs < qe)
     p = c.int('n%d_p' % i, pitch[0], pitch[1])
     v = c.int('n%d_v' % i, vel[0], vel[1])
     ins = c.int('n%d_i' % i, instruments[0], instruments[1])
@@ -87,10 +105,13 @@ def _qseq(c, N, smax, relative=True, spq=1, sps=100, ts=(4, 4), pitch=(58, 62),
     notes.append(dict(qs=qs, qe=qe, p=p, v=v, i=ins, d=d))
   for a in range(N):
     for b in range(a + 1, N):
+      if not no_overlap:
+        break
       A, B = notes[a], notes[b]
       c.assume(c.Or(c.Not(c.eq(A['p'], B['p'])), A['qe'] <= B['qs'],
                     B['qe'] <= A['qs']))
-  tq = c.int('tq', 0, None if unbounded else smax)
+  tq = c.int('tq', 0, None if unbounded else (
+      smax if steps is None else max(e for _, e in steps) + 1))
   for n in notes:
     c.assume(n['qe'] <= tq)
   ns.total_quantized_steps = tq
@@ -142,9 +163,12 @@ def h_performance(c):
   nbins = c.params['bins']
   kind = c.params['kind']
   relative = kind == 'metric'
+  pattern = c.params.get('steps')
   ns, notes, tq = _qseq(c, N, None, relative=relative, spq=4, sps=100,
-                        unbounded=True, vel=(1, 127), instruments=(0, 1))
-  start = c.int('start', 0, None)
+                        unbounded=pattern is None, vel=(1, 127),
+                        instruments=(0, 1) if pattern is None else (0, 0),
+                        steps=pattern)
+  start = c.int('start', 0, None) if pattern is None else 0
   instrument = c.params.get('instrument')
   if relative:
     c.assume(tq <= start + c.params.get('loops', 3) * c.params['msq'] * 4)
@@ -503,6 +527,11 @@ def jobs(tier):
   add('h_performance', kind='absolute', N=2, bins=8, msq=4, loops=2, budget=600)
   add('h_performance', kind='metric', N=2, bins=0, msq=4, loops=2, budget=600)
   add('h_performance', kind='absolute', N=1, bins=127, msq=4, instrument=1)
+  # three notes on concrete step patterns (all interleavings of on/off order
+  # that matter for the velocity / shift logic), everything else symbolic
+  for pat in _PATTERNS3:
+    add('h_performance', kind='absolute', N=3, bins=8, msq=4, steps=pat)
+  add('h_performance', kind='metric', N=3, bins=4, msq=1, steps=_PATTERNS3[0])
   add('h_noteperf', N=1, bins=32)
   add('h_noteperf', N=2, bins=127)
   # pianoroll
